@@ -834,3 +834,8 @@ pub fn replay(sub: &str, case: &Value) -> Result<(), Fail> {
         _ => Err(Fail::new("replay-unknown-sub", sub.to_string())),
     }
 }
+
+pub fn fuzz_targets() -> Vec<crate::fuzz::Target> {
+    use crate::fuzz::from_strategy;
+    vec![from_strategy("c08_slices", "C08", "random", || case(4096), check)]
+}
